@@ -122,38 +122,86 @@ func buildMatrix(ct *contT, v val, r, c int, pat []int) ad.Matrix {
 	return m
 }
 
+// receiver kinds: the state of the object a decoder is asked to overwrite
+//   fresh   zero value of the type
+//   used    previously used 2x2 matrix / 2-vector (some entries zero)
+//   smaller 1x1 matrix / 1-vector
+//   larger  4x4 matrix / 5-vector, every entry non-zero
+//   same    the shape of the object that is decoded, every entry non-zero junk
+var extraRecvKinds = []string{"smaller", "larger", "same"}
+
+func recvKind(used bool) string {
+	if used {
+		return "used"
+	}
+	return "fresh"
+}
+
 // newReceiver returns a pointer usable as json.Unmarshaler / importer for the type of
-// `like`, either a zero value or a previously used object.
-func newReceiver(ct *contT, like any, used bool) any {
+// `like` in the given previous state (dims: shape of the object to be decoded, for "same").
+func newReceiver(ct *contT, like any, kind string, dims []int) any {
 	t := reflect.TypeOf(like)
+	r, c := 2, 2
+	full := false
+	switch kind {
+	case "smaller":
+		r, c = 1, 1
+	case "larger":
+		r, c, full = 4, 4, true
+		if !ct.Matrix {
+			r = 5
+		}
+	case "same":
+		full = true
+		if ct.Matrix && len(dims) == 2 {
+			r, c = dims[0], dims[1]
+		} else if !ct.Matrix && len(dims) >= 1 {
+			r = dims[0]
+		}
+	}
+	junkVec := func() ad.Vector {
+		u := ct.newVec(r)
+		for i := 0; i < r; i++ {
+			u.At(i).SetInt64(int64(7 + i))
+		}
+		if ct.St.Real && !ct.Sparse && r > 0 && kind != "used" {
+			u.At(r - 1).(ad.MagicScalar).Alloc(1, 1)
+			u.At(r - 1).(ad.MagicScalar).SetDerivative(0, 5)
+		}
+		return u
+	}
 	if t.Kind() != reflect.Ptr { // dense vectors are slices
 		p := reflect.New(t)
-		if used {
-			u := ct.newVec(2)
-			u.At(0).SetInt64(7)
-			u.At(1).SetInt64(8)
-			p.Elem().Set(reflect.ValueOf(u))
+		if kind != "fresh" {
+			p.Elem().Set(reflect.ValueOf(junkVec()))
 		}
 		return p.Interface()
 	}
-	if !used {
+	if kind == "fresh" {
 		return reflect.New(t.Elem()).Interface()
 	}
 	if ct.Matrix {
-		u := ct.newMat(2, 2)
-		u.At(0, 0).SetInt64(7)
-		u.At(1, 0).SetInt64(8)
-		u.At(1, 1).SetInt64(9)
-		if ct.St.Real {
+		u := ct.newMat(r, c)
+		if kind == "used" {
+			u.At(0, 0).SetInt64(7)
+			u.At(1, 0).SetInt64(8)
+			u.At(1, 1).SetInt64(9)
+		} else {
+			for i := 0; i < r; i++ {
+				for j := 0; j < c; j++ {
+					if full || i == j {
+						u.At(i, j).SetInt64(int64(7 + i*c + j))
+					}
+				}
+			}
+		}
+		if ct.St.Real && r > 0 && c > 0 {
 			u.At(0, 0).(ad.MagicScalar).Alloc(1, 1)
 			u.At(0, 0).(ad.MagicScalar).SetDerivative(0, 5)
 		}
 		return u
 	}
-	u := ct.newVec(2)
-	u.At(0).SetInt64(7)
-	u.At(1).SetInt64(8)
-	return u
+	return junkVec()
 }
 
 func derefReceiver(p any) any {
